@@ -89,6 +89,15 @@ pub fn configs18() -> Vec<Cfg18> {
     for code in [5 + 8 * 5, 6 + 8 * 6, 1, 8, 1 + 8 * 7, 5 + 8 * 6u32] {
         v.push(Cfg18 { name: format!("sweep-hetero64-ch2-ms-t{}{}", code % 8, code / 8), stream_api: false, ch: 2, bps: 16, lpc: Some(2), mid_side: true, fast: false, signal: HETERO + code, frames: 128, block: 64, window: 0 });
     }
+    // the same through the raw-frame writer (its own EncoderOptions / caches), and 8 channels with exactly one odd channel
+    for code in [1u32, 8, 5 + 8 * 5, 6 + 8 * 6, 2 + 8 * 1, 7] {
+        v.push(Cfg18 { name: format!("sweep-hetero-stream-ch2-ms-t{}{}", code % 8, code / 8), stream_api: true, ch: 2, bps: 16, lpc: Some(2), mid_side: true, fast: false, signal: HETERO + code, frames: 16, block: 16, window: 0 });
+    }
+    for odd in 0..8u32 {
+        for t in 1..=3u32 {
+            v.push(Cfg18 { name: format!("sweep-hetero-ch8-odd{}-t{}", odd, t), stream_api: false, ch: 8, bps: 16, lpc: Some(2), mid_side: true, fast: false, signal: HETERO + (t << (3 * odd)), frames: 16, block: 16, window: 0 });
+        }
+    }
     v
 }
 
